@@ -32,6 +32,16 @@ CHECKS = {
          "fresh ids >= 256; exactly one of each Graphite table. Histories: 3-generation chains (g2 tables = g1 tables for Silf/Glat/Gloc/Sill, g3 = g2 byte for byte) and compile(P, compile(Q, F))."),
    note=TB + "The byte-level model `assemble` of the copy loop is not yet proved; container validity is decided per output font (translation-validation style), input fonts are sampled (generated variants + suite fonts).",
    design="4/C08"),
+ "C05": dict(
+   technique="Lean 4 theorems (override rule = specification in any processing order; Glat run encoding round trip) + specification evaluated in Lean and compared cell by cell with the decoded Glat/Gloc of real output",
+   text=("Proof: Grc.GA.challenge_fold_eq_spec — for every list of competing assignments on pairwise distinct, statement-ordered source lines and every order in which the compiler's class-ordered "
+         "processing presents them, the stored assignment is the specification's winner (a later statement overrides an earlier one unless AttributeOverride is false where it is written); "
+         "codeWinner_perm (order independence), lookup_encodeRuns (the run encoding of OutputGlatAndGloc returns every attribute's value, zeros omitted, for any run-length limit). "
+         "Tie: for generated glyph tables (overlapping classes, environments toggling AttributeOverride, boundary values) the Lean specification is evaluated per (glyph, attribute) and compared "
+         "with the strictly decoded Glat/Gloc of the real font (attribute ids recovered via a marker glyph; breakweight via the Silf header), incl. the documented breakweight default; "
+         "values outside the 16-bit field must be rejected with 4144/4145 and no font."),
+   note=TB + "Hypothesis of the theorem (distinct lines) is necessary: the excluded point is the recorded known finding. Not covered yet: m-unit scaling, glyph metrics/point()/box() in values, directionality/mirroring defaults (ICU), >255 attributes.",
+   design="4/C05"),
  "C06": dict(
    technique="Lean 4 theorems (padding alignment, start-of-text firing, trial order) + their hypotheses evaluated on decoded real output",
    text=("Proof: Grc.Prec.padding_preserves_match (for every glyph string and scan position the ANY-padded rule matches iff the rule as written "
